@@ -193,6 +193,119 @@ fn gen_history(r: &mut Rng, tpls: &[Tpl]) -> Vec<Req> {
     out
 }
 
+// ---------- literal / comment stress family ----------
+// Several literals ahead of the first RETURN (where the key is normalised): a fixed first
+// literal that is lexically awkward, then literals whose *inner* whitespace varies from
+// request to request. A key that loses track of where a literal ends merges those requests.
+
+/// (text, tag): first literal, fixed within a history
+const TRICKY_LIT: &[(&str, &str)] = &[
+    (r"'C:\\'", "lit_ends_escaped_backslash"),
+    (r#""C:\\""#, "lit_ends_escaped_backslash"),
+    (r"'\\'", "lit_ends_escaped_backslash"),
+    (r"'a b\\'", "lit_ends_escaped_backslash"),
+    (r"'a\\\\'", "lit_backslash_run"),
+    (r#""a\\\\""#, "lit_backslash_run"),
+    (r"'a\\\''", "lit_backslash_run"),
+    (r"'a\\\\\\'", "lit_backslash_run"),
+    (r"'it\'s'", "lit_escaped_quote"),
+    (r#""say \"hi\"""#, "lit_escaped_quote"),
+    (r"'\''", "lit_escaped_quote"),
+    (r#"'a "b" c'"#, "lit_other_quote"),
+    (r#""it's""#, "lit_other_quote"),
+    (r#"'"'"#, "lit_other_quote"),
+    (r#""'""#, "lit_other_quote"),
+    (r"'a // b'", "lit_comment_marker_inside"),
+    (r"'a /* b'", "lit_comment_marker_inside"),
+    (r"'*/'", "lit_comment_marker_inside"),
+    (r"'a\' // '", "lit_comment_marker_inside"),
+    (r"'x'/* c */", "lit_adjacent_comment"),
+    (r"/* c */'x'", "lit_adjacent_comment"),
+    (r"'x'/**/", "lit_adjacent_comment"),
+    ("'x'// c\n", "lit_adjacent_comment"),
+    (r"'a\'", "unterminated"),
+    (r"'a\\\'", "unterminated"),
+    (r"'abc", "unterminated"),
+    (r#""abc"#, "unterminated"),
+    ("'plain'", "lit_plain_first"),
+];
+
+/// families of literals that differ only in inner whitespace (index 0/1 select graph rows)
+const WS_FAMILIES: &[&[&str]] = &[
+    &["'A b'", "'A  b'", "'A\tb'", "'A   b'"],
+    &["\"A b\"", "\"A  b\"", "\"A \t b\""],
+    &["'Al  ice'", "'Al ice'", "'Al   ice'"],
+    &[r"'A b\\'", r"'A  b\\'"],
+    &[r#"'A "b'"#, r#"'A  "b'"#],
+    &[r"'A\' b'", r"'A\'  b'"],
+];
+
+/// separators that contain quote characters inside comments, comments next to literals, …
+const COMMENT_SEPS: &[(&str, &str)] = &[
+    (" ", "sep_plain"),
+    ("  ", "sep_plain"),
+    ("\n", "sep_plain"),
+    (" /* ' */ ", "comment_with_quote"),
+    (" /* \" */ ", "comment_with_quote"),
+    (" /* it's */ ", "comment_with_quote"),
+    (" // it's\n", "comment_with_quote"),
+    (" // \"\n", "comment_with_quote"),
+    ("/* ' */", "comment_with_quote"),
+    (" /* \\' */ ", "comment_with_quote"),
+    (" /* c */ ", "sep_comment"),
+    (" // c\n", "sep_comment"),
+    (" /* unterminated ", "unterminated"),
+    (" // ' ", "unterminated"),
+];
+
+fn gen_literal_history(r: &mut Rng) -> (Vec<Req>, Vec<&'static str>) {
+    let mut tags: Vec<&'static str> = Vec::new();
+    let (l1, t1) = *r.pick(TRICKY_LIT);
+    tags.push(t1);
+    let fam2 = *r.pick(WS_FAMILIES);
+    let fam3 = *r.pick(WS_FAMILIES);
+    let (s1, ts1) = *r.pick(COMMENT_SEPS);
+    let (s2, ts2) = if r.chance(1, 3) { *r.pick(COMMENT_SEPS) } else { (" ", "sep_plain") };
+    tags.push(ts1);
+    tags.push(ts2);
+    let shape = r.below(4);
+    let len = r.range(2, 6) as usize;
+    let mut out = Vec::new();
+    let mut seen2: Vec<&str> = Vec::new();
+    let mut seen3: Vec<&str> = Vec::new();
+    for _ in 0..len {
+        let l2 = *r.pick(fam2);
+        let l3 = *r.pick(fam3);
+        if !seen2.contains(&l2) {
+            seen2.push(l2);
+        }
+        if !seen3.contains(&l3) {
+            seen3.push(l3);
+        }
+        let a = *r.pick(PLAIN_SEPS);
+        let b = *r.pick(PLAIN_SEPS);
+        let (text, write) = match shape {
+            0 => (format!("MATCH{}(n:Person) WHERE n.tag = {}{}OR n.name = {}{}OR n.tag ={}{} RETURN n.age", a, l1, s1, l2, s2, b, l3), false),
+            1 => (format!("MATCH (n:Person){}WHERE n.name = {}{}OR n.tag = {}{}RETURN n.age", a, l2, s1, l1, b), false),
+            2 => (format!("CREATE{}(:T {{p: {},{}s: {},{}t: {}}})", a, l1, s1, l2, s2, l3), true),
+            _ => (format!("MATCH (n:Person {{name: {}}}){}WHERE n.tag IS NULL OR n.tag IN [{}, {}]{}RETURN n.age", l2, s1, l1, l3, b), false),
+        };
+        out.push(Req { text, write });
+    }
+    // the state a literal-boundary bug needs: awkward first literal, and a later literal whose
+    // inner whitespace differs between two requests of the history
+    if shape != 1 && shape != 3 && (seen2.len() > 1 || seen3.len() > 1) {
+        tags.push("later_literal_ws_differs");
+        if t1 == "lit_ends_escaped_backslash" || t1 == "lit_backslash_run" {
+            tags.push("later_literal_ws_differs_after_backslash_end");
+        }
+    }
+    if shape == 1 || shape == 3 {
+        tags.push("awkward_literal_not_first");
+    }
+    (out, tags)
+}
+
 fn run_case(out: &mut Out, cap: usize, hist: &[Req]) {
     let idx = out.next_index();
     if !out.wants(idx) {
@@ -298,7 +411,11 @@ fn main() {
     std::env::remove_var("SAMYAMA_GRAPH_NATIVE");
     let mut out = Out::new(&args, "From Verif Require Import QueryCache.", "QueryCache.case", "QueryCache.check_case",
                            100);
-    out.rule = "fixed witness histories (literal / comment / NBSP / expression-text / STARTS WITH families), then random \
+    out.rule = "fixed witness histories (literal / comment / NBSP / expression-text / STARTS WITH / escaped-backslash families), then 2 in 5 \
+                literal-stress histories (2-3 literals ahead of the first RETURN: an awkward first literal - ending in an escaped \
+                backslash, 2-6 backslashes before the closing quote, escaped quotes, the other quote character, comment markers \
+                inside, adjacent to a comment, unterminated - then literals whose inner whitespace varies per request; comments \
+                containing quote characters; both quote styles; reads and CREATE), else random \
                 histories of 2-7 requests over 1-2 of 14 statement templates (reads through execute, CREATE/SET/MERGE \
                 through execute_mut) with per-request mutations of separators (runs of space/tab/CR/LF, comments, \
                 NBSP and other Unicode spaces, empty), literal spellings (inner whitespace, quote style, escapes, \
@@ -310,6 +427,11 @@ fn main() {
     let w = |pairs: &[&str], write: bool| pairs.iter().map(|t| Req { text: t.to_string(), write }).collect::<Vec<_>>();
     let fixed: Vec<(usize, Vec<Req>)> = vec![
         (1024, w(&["RETURN 'a b'", "RETURN 'a  b'", "RETURN 'a b'"], false)),
+        (1024, w(&[r"MATCH (n:Person) WHERE n.tag = 'C:\\' OR n.name = 'A b' RETURN n.age", r"MATCH (n:Person) WHERE n.tag = 'C:\\' OR n.name = 'A  b' RETURN n.age", r"MATCH (n:Person)  WHERE n.tag = 'C:\\' OR n.name = 'A b' RETURN n.age"], false)),
+        (1024, w(&[r#"MATCH (n:Person) WHERE n.tag = "it's" OR n.name = 'A b' RETURN n.age"#, r#"MATCH (n:Person) WHERE n.tag = "it's" OR n.name = 'A  b' RETURN n.age"#], false)),
+        (1024, w(&["MATCH (n:Person) /* ' */ WHERE n.name = 'A b' RETURN n.age", "MATCH (n:Person) /* ' */ WHERE n.name = 'A  b' RETURN n.age", "MATCH (n:Person) // '\n WHERE n.name = 'A  b' RETURN n.age"], false)),
+        (1024, w(&[r"CREATE (:T {p: 'x\\', s: 'a b'})", r"CREATE (:T {p: 'x\\', s: 'a  b'})", r"CREATE (:T {p: 'x\\\\', s: 'a  b'})"], true)),
+        (1024, w(&["MATCH (n:Person) WHERE n.name = 'A b RETURN n.age", "MATCH (n:Person) WHERE n.name = 'A  b RETURN n.age", "MATCH (n) /* x  y RETURN 1", "MATCH (n) /* x y RETURN 1"], false)),
         (1024, w(&["RETURN 1 // c\n+ 1", "RETURN 1 // c + 1", "RETURN 1 // c\n + 1"], false)),
         (1024, w(&["RETURN 1 + 2", "RETURN\u{a0}1 + 2", "RETURN 1 +  2", "RETURN  1 + 2", "RETURN 1 + 2 "], false)),
         (1024, w(&["MATCH (n:Person) RETURN n", "MATCH  (n:Person)  RETURN  n", "MATCH (n:Person)\n\tRETURN n"], false)),
@@ -327,8 +449,17 @@ fn main() {
     for c in 0..n {
         let mut r = Rng::for_case(args.seed, c);
         let cap = if r.chance(1, 5) { 1024 } else { r.range(1, 4) as usize };
-        let hist = gen_history(&mut r, &tpls);
-        run_case(&mut out, cap, &hist);
+        if r.chance(2, 5) {
+            let (hist, tags) = gen_literal_history(&mut r);
+            for t in tags {
+                out.count(t);
+            }
+            out.count("literal_stress_histories");
+            run_case(&mut out, cap, &hist);
+        } else {
+            let hist = gen_history(&mut r, &tpls);
+            run_case(&mut out, cap, &hist);
+        }
     }
     out.finish();
 }
